@@ -25,6 +25,17 @@ PANICKY_STD = {
 }
 
 
+_ranges = {}
+
+
+def ranges_of(fl):
+    import ranges
+    k = id(fl)
+    if k not in _ranges:
+        _ranges[k] = (fl, ranges.Ranges(fl))
+    return _ranges[k][1]
+
+
 def const_of(fl, op):
     os_ = fl.origins(op)
     if len(os_) == 1:
@@ -130,6 +141,9 @@ def describe_assert(fl, b, bi, t):
                 a, c = const_of(fl, data['ops'][0]), const_of(fl, data['ops'][1])
                 if a is not None and c is not None:
                     return '%s(%d, %d)' % (data['op'], a, c), 'constant operands'
+                why = ranges_of(fl).overflow_safe(bi, data)
+                if why:
+                    return '%s(%s, %s)' % (data['op'].replace('WithOverflow', ''), root_name(fl, data['ops'][0]), root_name(fl, data['ops'][1])), 'range analysis: ' + why
                 return '%s(%s, %s)' % (data['op'].replace('WithOverflow', ''), root_name(fl, data['ops'][0]), root_name(fl, data['ops'][1])), None
     if cond['k'] != 'const':
         l = cond['p']['l']
@@ -207,6 +221,8 @@ EXC = {
     ('<sync::CopiaSync as sync::Sync>::delta', 'index'): (7, 'same loop as the async engine'),
     ('<sync::CopiaSync as sync::Sync>::delta', 'panic'): (1, 'debug_assert_eq!(matched+literal, source_size): a checker of C01.R2 accounting on delta\'s own output, not on hostile input'),
     ('signature::SignatureTable::find_match', 'index'): (1, 'candidate indices were produced by enumerate() over the same immutable blocks vector in from_signature'),
+    ('signature::SignatureTable::find_weak_match', 'index'): (1, 'same candidate list as find_match (not on today\'s delta path; tabled from reading so that a caller added later is judged on its own sites)'),
+    ('signature::SignatureTable::find_match_optimized', 'index'): (4, 'same candidate list as find_match; candidates[0] is read only under candidates.len() == 1'),
     ('delta::Delta::push_copy', 'assert:Overflow'): (1, 'offset = index*block_size < 2^48, len < 2^32'),
     ('delta::Delta::push_copy', 'panic'): (1, 'debug_assert!(len > 0): callers pass block_size as u32 with block_size in 512..=65536 (validated, C20.R7)'),
     ('checksum::FastRollingChecksum::new', 'assert:Overflow'): (4, 'certified wrap-free by the C17 arithmetic analysis for windows <= 65536'),
